@@ -477,6 +477,20 @@ func c01History(c *vc.Ctx, n, hist int) {
 			if v.Doc != "payload" || v.Expect != mustFail {
 				continue
 			}
+			// and a vote for a batch of block hashes offered with one field of the batch changed: a different field in every
+			// round (first, last, middle hash, one hash fewer, one more), on a batch of three hashes
+			if len(items) < 12 {
+				want := round % 5
+				for salt := 0; salt < 240; salt++ {
+					if salt%5 == want && salt%3 == 2 && salt%8 < 6 {
+						if msg, ok := c01Build(env, g, "hashes", v, salt); ok {
+							items = append(items, item{"hashes", v, msg})
+							c.Count("hash_batch_votes_with_one_field_changed", 1)
+						}
+						break
+					}
+				}
+			}
 			for _, kind := range []string{"replace", "process"} {
 				if len(items) >= 12 {
 					break
